@@ -165,14 +165,17 @@ def check_property(prop, tier, a):
             fn_levels[fn] = f"undecided ({r['status']}: {str(r['reason'])[:160]})"
             continue
         lvl = "P"
+        fn_canaries = [ob for ob in r["obligations"] if ob["kind"] == "canary"]
+        if fn_canaries and not any(ob["verdict"] == "sat" for ob in fn_canaries):
+            # no path that reaches a postcondition is satisfiable: the contract is vacuous (checker fault).  A single
+            # contradictory path is harmless (feasibility checks are time-limited, so a few infeasible paths are explored).
+            vacuous.append((fn, fn_canaries[0]))
         for ob in r["obligations"]:
             solver_time += ob["time"]
             if ob["kind"] == "canary":
                 canaries += 1
                 if ob["verdict"] == "sat":
                     canaries_ok += 1
-                elif ob["verdict"] == "unsat":
-                    vacuous.append((fn, ob))
                 continue
             if ob["kind"] == "vacuity":
                 vacuous.append((fn, ob))
